@@ -59,3 +59,23 @@ def gen_cloudsync(rng, pname):
 
 FIXTURES["CS"] = fx_cloudsync
 GENERATORS["CS"] = gen_cloudsync
+
+
+def fx_sqlite(cfg, pname, inputs):
+    """a real SqliteStorage(':memory:') pre-populated with the rows given in inputs['<pname>.rows'] = [(id, tag, bytes)]"""
+    from cloudsync.sync.sqlite_storage import SqliteStorage
+    s = SqliteStorage(":memory:")
+    for rid, tag, blob in inputs.get(pname + ".rows", []):
+        s.db.execute("INSERT INTO cloud (id, tag, serialization) VALUES (?, ?, ?)", [rid, tag, blob])
+    return s
+
+
+def gen_sqlite(rng, pname):
+    rows = []
+    for rid in rng.sample([1, 2, 3, 4, 5], rng.randint(0, 4)):
+        rows.append((rid, rng.choice(["a", "b", ""]), rng.choice([b"", b"x", b"\xff\x00", b"y" * 40])))
+    return {pname + ".rows": rows}
+
+
+FIXTURES["Sqlite"] = fx_sqlite
+GENERATORS["Sqlite"] = gen_sqlite
